@@ -33,7 +33,7 @@ def angle(u, v):
 
 def gen_antenna(rng, families=None, max_pulses=25, ground=None, len_jitter=(0.7, 1.4), rad_jitter=(0.5, 1.5)):
     """returns dict(f, ground, wires=[dict(nseg,p0,p1,r)], family)"""
-    fams = families or ['dipole', 'vee', 'ell', 'tee', 'star', 'monopole', 'monopole_top', 'array', 'gp', 'loop', 'monopole_taper']
+    fams = families or ['dipole', 'vee', 'ell', 'tee', 'star', 'monopole', 'monopole_top', 'array', 'gp', 'loop', 'monopole_taper', 'varray']
     fam = rng.choice(fams)
     if ground is None:
         ground = fam in ('monopole', 'monopole_top', 'gp', 'monopole_taper') or (fam in ('dipole', 'vee', 'array') and rng.random() < 0.25)
@@ -109,6 +109,22 @@ def gen_antenna(rng, families=None, max_pulses=25, ground=None, len_jitter=(0.7,
         else:
             w.update(p0=[float(v) for v in top], p1=[float(x), float(y), 0.0])
         wires.append(w)
+    elif fam == 'varray':
+        # two or three wires exactly parallel to a coordinate axis (mostly z) on different axes, free space or over ground
+        # (elevated): direction cosines that are exactly 0 / 1, positions that are not
+        k = rng.choice([2, 2, 3])
+        ax = rng.choice([2, 2, 0, 1]) if not ground else rng.choice([2, 0, 1])
+        n = rng.randint(5, 9)
+        for j in range(k):
+            c = np.array([rng.uniform(-0.3, 0.3) * lam, rng.uniform(-0.3, 0.3) * lam, 0.0])
+            c[(ax + 1) % 3] += j * seg * rng.uniform(4, 9)
+            e = np.zeros(3); e[ax] = 1.0
+            if ground:
+                c[2] = abs(c[2]) + seg * (n / 2 + 2 if ax == 2 else 3)
+            a, b = c - e * seg * n / 2, c + e * seg * n / 2
+            if rng.random() < 0.3:
+                a, b = b, a
+            W(a, b, n)
     elif fam == 'monopole_top':
         n = rng.randint(4, 8)
         x, y = rng.uniform(-1, 1) * lam, rng.uniform(-1, 1) * lam
